@@ -333,4 +333,6 @@ SINKFAULT = {"engine": "sinkfault", "bin": "h1", "quick": ["-n", "400"], "thorou
 PROPS["C15"]["engines"].append(SINKFAULT)
 PROPS["C11"]["engines"].append(SINKFAULT)
 
+PROPS["C07"]["engines"].append(handlers("C07", 3000, 60000))
+
 HOOK_COMMITS = ["dfecdf5", "9779dc0", "4292c91", "99b3530"]
